@@ -129,10 +129,23 @@ def tlc(specdir, module, cfg, workdir, workers=8, timeout=900, extra=(), heap="4
         subprocess.run(["pkill", "-f", meta], stdout=subprocess.DEVNULL, stderr=subprocess.DEVNULL)
     shutil.rmtree(meta, ignore_errors=True)
     res = dict(out=out, rc=rc, wall=time.time() - t0, generated=0, distinct=0, cmd=" ".join(cmd))
-    m = re.findall(r"(\d+) states generated, (\d+) distinct states found", out)
+    m = re.findall(r"([\d,]+) states generated(?: \([^)]*\))?, ([\d,]+) distinct states found", out)
     if m:
-        res["generated"], res["distinct"] = int(m[-1][0]), int(m[-1][1])
+        res["generated"], res["distinct"] = int(m[-1][0].replace(",", "")), int(m[-1][1].replace(",", ""))
+    res["timed_out"] = rc == -9
     return res
+
+
+def within_budget(r, tier):
+    """A TLC job of the THOROUGH tier that used up its time budget is not an error: TLC checks every invariant on every state
+    it generates, so what it explored until then was explored completely; the evidence says `complete: false` and how many
+    states that was.  (Quick-tier jobs are sized to finish; there a time-out stays inconclusive.)"""
+    if r.get("rc") != -9 or tier != "thorough" or not r.get("distinct"):
+        return False
+    if "is violated" in r["out"] or "Error:" in r["out"]:
+        return False
+    r["incomplete"] = True
+    return True
 
 
 def tlc_violations(out):
